@@ -31,6 +31,17 @@ def main(argv=None):
     except ValueError:
         seed = 0
     prop = a.property.upper()
+    # watchdog: a check must terminate; a run-away normalisation is an analysis failure, never a silent hang
+    import threading
+    limit = int(os.environ.get("PYXAB_CHECK_TIMEOUT", "3000" if a.tier == "thorough" else "900"))
+
+    def _expired():
+        sys.stdout.write("ANALYSIS-ERROR property=%s analysis did not finish within %d s\n" % (prop, limit))
+        sys.stdout.flush()
+        os._exit(2)
+    wd = threading.Timer(limit, _expired)
+    wd.daemon = True
+    wd.start()
     from pyxab_static import report
     from pyxab_static.model import Model
     try:
